@@ -22,6 +22,7 @@ use std::path::{Path, PathBuf};
 
 const TAG: u64 = 0xC18;
 const FINDING_ABS_PREFIX: &str = "C18-abs-prefix-href";
+const FINDING_HREF_SCHEME: &str = "C18-href-scheme-from-name";
 
 // ---------------------------------------------------------------------------------------------
 // generators
@@ -257,6 +258,25 @@ fn ref_html_escape(s: &str) -> String {
     o
 }
 
+/// RFC 3986 §3.1 after leading spaces: the reference would be resolved as an absolute URL
+fn has_scheme(url: &str) -> bool {
+    let t = url.trim_start_matches(' ');
+    let mut cs = t.chars();
+    match cs.next() {
+        Some(c) if c.is_ascii_alphabetic() => {}
+        _ => return false,
+    }
+    for c in cs {
+        if c == ':' {
+            return true;
+        }
+        if !(c.is_ascii_alphanumeric() || c == '+' || c == '-' || c == '.') {
+            return false;
+        }
+    }
+    false
+}
+
 /// the property on one escaped string; `None` = holds
 fn oracle_escaped(routine: &str, s: &str, out: &str) -> Option<String> {
     match routine {
@@ -434,6 +454,12 @@ fn esc_observe(name: &str) -> Vec<(&'static str, Vec<Result<String, String>>)> {
             vec![g(&|| Ok(xhex(quick_xml::escape::partial_escape(name).as_bytes())))],
         ),
         ("json", vec![g(&|| impl_json(name))]),
+        // not a routine of the implementation: keeps the Lean predicate `hasScheme` and the
+        // oracle's `has_scheme` (used on the decoded hrefs of whole reports) the same function
+        (
+            "scheme",
+            vec![Ok(if has_scheme(name) { "x31".to_string() } else { "x30".to_string() })],
+        ),
         ("html", vec![]),
     ]
 }
@@ -617,7 +643,7 @@ fn esc_stream(rep: &mut Report, rng: &mut Rng) {
         let m = &answers[i * per..(i + 1) * per];
         if i == 0 {
             rep.sample(json!({"request": reqs[i * per], "impl": c.obs[0].1[0].clone().unwrap_or_default(), "model": m[0]}));
-            rep.sample(json!({"request": reqs[i * per + 4], "impl": c.obs[4].1[0].clone().unwrap_or_default(), "model": m[4]}));
+            rep.sample(json!({"request": reqs[i * per + 5], "impl": c.obs[5].1[0].clone().unwrap_or_default(), "model": m[5]}));
         }
         esc_judge(rep, c, m);
     }
@@ -1157,6 +1183,8 @@ struct Verdict {
     failures: Vec<String>,
     /// failures that are exactly the known finding
     finding_abs_prefix: Vec<String>,
+    /// index rows whose link is an absolute URL because the name starts like a scheme
+    finding_href_scheme: Vec<String>,
 }
 
 /// expected `<title>` / `<a>` / `<pre>` elements of one page, in document order
@@ -1268,6 +1296,7 @@ fn judge_case(c: &RepCase, hid: &str, bid: &str, wh: &Written, wb: &Written, dec
     let mut v = Verdict {
         failures: vec![],
         finding_abs_prefix: vec![],
+        finding_href_scheme: vec![],
     };
     for (n, p) in &wh.panics {
         v.failures.push(format!("writer {} panicked: {}", n, p));
@@ -1433,6 +1462,21 @@ fn judge_case(c: &RepCase, hid: &str, bid: &str, wh: &Written, wb: &Written, dec
     let empty = Value::Null;
     let top = judge_page(doc(hid, "html.top"), doc(bid, "html.top"), &expect_top_page(c));
     v.failures.extend(top.into_iter().map(|m| format!("html top index: {}", m)));
+    // links built from names must stay relative (no prefix option: every link of an index page
+    // is meant to point into the report)
+    let scheme_rows = |page: &Value| -> Vec<String> {
+        if c.prefix.is_some() {
+            return vec![];
+        }
+        triples(&page["elems"])
+            .into_iter()
+            .filter(|t| t.0 == "a" && has_scheme(&t.1))
+            .map(|t| t.1)
+            .collect()
+    };
+    for h in scheme_rows(doc(hid, "html.top")) {
+        v.finding_href_scheme.push(format!("top index: row link {:?} is an absolute URL", h));
+    }
     let parents: BTreeSet<String> = c.files.iter().map(parent_of).collect();
     for (k, p) in parents.iter().enumerate() {
         // the twin numbers its directories in the order of *its* names: find the twin of `p`
@@ -1443,6 +1487,9 @@ fn judge_case(c: &RepCase, hid: &str, bid: &str, wh: &Written, wb: &Written, dec
             &expect_dir_page(c, p),
         );
         v.failures.extend(r.into_iter().map(|m| format!("html directory index {:?}: {}", p, m)));
+        for h in scheme_rows(doc(hid, &format!("html.dir{}", k))) {
+            v.finding_href_scheme.push(format!("directory index {:?}: row link {:?} is an absolute URL", p, h));
+        }
     }
     for (k, f) in c.files.iter().enumerate() {
         let what = format!("html.file{}", k);
@@ -1547,7 +1594,7 @@ fn evaluate_cases(rep: &mut Report, cases: &[RepCase], tag: &str) -> Vec<Verdict
     for (i, c) in cases.iter().enumerate() {
         let (hid, bid, wh, wb) = &written[i];
         let v = judge_case(c, hid, bid, wh, wb, &dec);
-        if v.failures.is_empty() && v.finding_abs_prefix.is_empty() {
+        if v.failures.is_empty() {
             if let Some(d) = bc_diff.get(&i) {
                 rep.disagreements_checked += 1;
                 rep.fail(
@@ -1641,6 +1688,27 @@ fn report_stream(rep: &mut Report, rng: &mut Rng) {
     };
     cases.push(witness(None));
     cases.push(witness(Some("http://h".into())));
+    // fixed: a directory and a file whose names start like a URL scheme
+    cases.push(RepCase {
+        root: "r".into(),
+        files: vec![
+            FileCase {
+                comps: vec!["javascript:alert(1)".into(), "x.c".into()],
+                lines: vec!["int x;".into()],
+                cov: parse_cov("L1:1;B;F"),
+            },
+            FileCase {
+                comps: vec!["d".into(), "javascript:alert(2)".into()],
+                lines: vec!["int y;".into()],
+                cov: parse_cov("L1:0;B;F"),
+            },
+        ],
+        demangle: false,
+        pretty: false,
+        branch: false,
+        prefix: None,
+        service: vec!["a".into(), "b".into(), "c".into(), "d".into()],
+    });
     for _ in 0..n {
         cases.push(gen_report_case(rng, None));
     }
@@ -1685,6 +1753,10 @@ fn report_stream(rep: &mut Report, rng: &mut Rng) {
         if !v.finding_abs_prefix.is_empty() {
             rep.count("report.finding_abs_prefix_href");
             rep.fail("oracle", Some(FINDING_ABS_PREFIX), v.finding_abs_prefix.join(" | "), cj.clone());
+        }
+        if !v.finding_href_scheme.is_empty() {
+            rep.count("report.finding_href_scheme");
+            rep.fail("oracle", Some(FINDING_HREF_SCHEME), v.finding_href_scheme.join(" | "), cj.clone());
         }
     }
 }
@@ -1763,6 +1835,9 @@ pub fn replay(rep: &mut Report, case: &Value) {
                 }
                 if !v.finding_abs_prefix.is_empty() {
                     rep.fail("oracle", Some(FINDING_ABS_PREFIX), v.finding_abs_prefix.join(" | "), case.clone());
+                }
+                if !v.finding_href_scheme.is_empty() {
+                    rep.fail("oracle", Some(FINDING_HREF_SCHEME), v.finding_href_scheme.join(" | "), case.clone());
                 }
             } else {
                 rep.notes.push("malformed report case".into());
